@@ -8,6 +8,7 @@ import (
 	"encoding/json"
 	"fmt"
 	"math/rand/v2"
+	"os"
 	"sort"
 	"strconv"
 	"strings"
@@ -114,17 +115,18 @@ func (x *LabelExec) newSV(r *rand.Rand) uint64 {
 	// supervoxel ids chosen by the client are always above every label present or handed
 	// out so far (a client must not reuse an id the server allocated for a body)
 	x.labelCtr++
+	top := x.M.Reserved
 	switch r.IntN(12) {
 	case 0:
-		if x.M.MaxEver < 1<<44 {
-			return x.M.MaxEver + 1<<40
+		if top < 1<<44 {
+			return top + 1<<40
 		}
 	case 1:
-		if x.M.MaxEver < 1<<44 {
-			return x.M.MaxEver + 1<<32
+		if top < 1<<44 {
+			return top + 1<<32
 		}
 	}
-	return x.M.MaxEver + 1 + uint64(r.IntN(3))
+	return top + 1 + uint64(r.IntN(3))
 }
 
 func parseMutResp(body []byte) map[string]uint64 {
@@ -221,12 +223,39 @@ func (x *LabelExec) Apply(op drv.Op) (handled bool, v *drv.Violation, err error)
 		if kind == "" {
 			kind = "clean"
 		}
-		_, e := w.Restart(kind)
-		return true, nil, e
+		// C03 clause for the label counters: what every version answers for maxlabel before the
+		// stop (all background work settled) must be what it answers in the next lifetime.
+		var before map[string]string
+		if x.M != nil {
+			if e := w.Barrier(); e != nil {
+				return true, nil, e
+			}
+			var e error
+			if before, e = x.counterSnapshot(); e != nil {
+				return true, nil, e
+			}
+		}
+		if _, e := w.Restart(kind); e != nil {
+			return true, nil, e
+		}
+		if before != nil {
+			after, e := x.counterSnapshot()
+			if e != nil {
+				return true, nil, e
+			}
+			for k, b := range before {
+				if after[k] != b {
+					return true, &drv.Violation{Prop: "C03", Oracle: "restart-snapshot", Sig: "label counter of a version reads differently after a restart (" + kind + ")",
+						Detail: fmt.Sprintf("%s: before the %s restart %s, after it %s", k, kind, b, after[k])}, nil
+				}
+			}
+			w.Stats.Probe("label-counters-compared-across-restart")
+		}
+		return true, nil, nil
 	}
 	if x.M == nil || !x.D.Has(op.V) || x.D.Nodes[op.V].Locked {
 		switch op.Op {
-		case "ingest", "mutate", "lmerge", "cleave", "splitsv", "renumber", "nextlabel", "setnext":
+		case "ingest", "mutate", "lmerge", "cleave", "splitsv", "renumber", "nextlabel", "setnext", "setmax", "parlabel":
 			x.Skipped++
 			return true, nil, nil
 		}
@@ -275,7 +304,7 @@ func (x *LabelExec) Apply(op drv.Op) (handled bool, v *drv.Violation, err error)
 				labels = append(labels, pick(r, exSV)) // a supervoxel that continues into these blocks
 			} else {
 				l := x.newSV(r)
-				x.M.note(l)
+				x.M.reserve(l) // noted as present only for the voxels actually written (SetBox)
 				labels = append(labels, l)
 			}
 		}
@@ -334,6 +363,137 @@ func (x *LabelExec) Apply(op drv.Op) (handled bool, v *drv.Violation, err error)
 			// a merged label that is not itself a supervoxel with voxels no longer maps anywhere
 		}
 		w.Stats.Probe("label-merge")
+		return true, nil, nil
+	case "parlabel":
+		// 2-3 label operations that commute, issued concurrently and interleaved by the scheduler:
+		// cleaves of ONE body with disjoint supervoxel sets, merges of distinct bodies into ONE target,
+		// or a cleave and a merge on disjoint bodies.  Every acknowledged one must be fully applied.
+		bs := lv.BodySVs()
+		bodies := sortedBodies(lv)
+		type planned struct {
+			req    proto.Req
+			desc   string
+			cleave []uint64 // supervoxels cleaved away (new body from the answer)
+			from   []uint64 // bodies merged ...
+			into   uint64   // ... into this one
+		}
+		var plan []planned
+		cleaveOf := func(b uint64, svs []uint64, c string) planned {
+			return planned{req: proto.Req{Client: c, Kind: "http", Method: "POST", URL: fmt.Sprintf("%s/cleave/%d", x.base(op.V), b), Body: jsonU64s(svs)},
+				desc: fmt.Sprintf("cleave %v from body %d", svs, b), cleave: svs}
+		}
+		mergeOf := func(t uint64, from []uint64, c string) planned {
+			return planned{req: proto.Req{Client: c, Kind: "http", Method: "POST", URL: x.base(op.V) + "/merge", Body: jsonU64s(append([]uint64{t}, from...))},
+				desc: fmt.Sprintf("merge %v into %d", from, t), from: from, into: t}
+		}
+		var big []uint64
+		for _, b := range bodies {
+			if len(bs[b]) >= 3 {
+				big = append(big, b)
+			}
+		}
+		mode := r.IntN(4)
+		if m := os.Getenv("VERIF_PARMODE"); m != "" { // diagnosis only
+			mode = int(m[0] - '0')
+		}
+		switch {
+		case mode == 0 && len(big) > 0:
+			b := pick(r, big)
+			svs := append([]uint64(nil), bs[b]...)
+			r.Shuffle(len(svs), func(i, j int) { svs[i], svs[j] = svs[j], svs[i] })
+			n := 2
+			if len(svs) >= 4 && r.IntN(2) == 0 {
+				n = 3
+			}
+			for i := 0; i < n; i++ {
+				plan = append(plan, cleaveOf(b, []uint64{svs[i]}, fmt.Sprintf("c%d", i+1)))
+			}
+			w.Stats.Probe("concurrent-cleaves-of-one-body")
+		case mode == 1 && len(bodies) >= 3:
+			sh := append([]uint64(nil), bodies...)
+			r.Shuffle(len(sh), func(i, j int) { sh[i], sh[j] = sh[j], sh[i] })
+			plan = append(plan, mergeOf(sh[0], []uint64{sh[1]}, "c1"), mergeOf(sh[0], []uint64{sh[2]}, "c2"))
+			w.Stats.Probe("concurrent-merges-into-one-body")
+		case mode == 3 && len(big) > 0 && len(bodies) >= 2:
+			// a cleave of body T and a merge INTO body T
+			b := pick(r, big)
+			var others []uint64
+			for _, o := range bodies {
+				if o != b {
+					others = append(others, o)
+				}
+			}
+			plan = append(plan, cleaveOf(b, []uint64{bs[b][r.IntN(len(bs[b]))]}, "c1"), mergeOf(b, []uint64{pick(r, others)}, "c2"))
+			w.Stats.Probe("concurrent-cleave-of-and-merge-into-one-body")
+		default:
+			if len(big) == 0 || len(bodies) < 3 {
+				x.Skipped++
+				return true, nil, nil
+			}
+			b := pick(r, big)
+			var others []uint64
+			for _, o := range bodies {
+				if o != b {
+					others = append(others, o)
+				}
+			}
+			r.Shuffle(len(others), func(i, j int) { others[i], others[j] = others[j], others[i] })
+			plan = append(plan, cleaveOf(b, []uint64{bs[b][r.IntN(len(bs[b]))]}, "c1"), mergeOf(others[0], []uint64{others[1]}, "c2"))
+			w.Stats.Probe("concurrent-cleave-and-merge")
+		}
+		if len(plan) == 0 {
+			x.Skipped++
+			return true, nil, nil
+		}
+		var reqs []proto.Req
+		for _, pl := range plan {
+			reqs = append(reqs, pl.req)
+		}
+		res, e := w.Batch(reqs, "barrier")
+		if e != nil {
+			return true, nil, e
+		}
+		if res.Wedged {
+			return true, nil, w.ClassifyWedge("concurrent label operations\n"+descReqs(reqs), res.Stacks)
+		}
+		// ids are handed out in scheduler order, not in the order the clients are listed: they are judged
+		// sorted (unique and above everything issued before), the model effects commute
+		var newLabels, mutIDs []uint64
+		for i, rp := range res.Resps {
+			pl := plan[i]
+			if rp.Status != 200 {
+				return true, x.viol("write-ack", "valid concurrent label operation refused", fmt.Sprintf("%s (issued together with %d others) -> %d %s", pl.desc, len(plan)-1, rp.Status, trunc(rp.Body))), nil
+			}
+			resp := parseMutResp(rp.Body)
+			if id, ok := resp["MutationID"]; ok {
+				mutIDs = append(mutIDs, id)
+			}
+			if pl.cleave != nil {
+				nl := resp["CleavedLabel"]
+				if nl == 0 {
+					return true, x.viol("cleave-response", "cleave response lacks CleavedLabel", trunc(rp.Body)), nil
+				}
+				newLabels = append(newLabels, nl)
+				for _, sv := range pl.cleave {
+					lv.Map[sv] = nl
+				}
+			} else {
+				for _, f := range pl.from {
+					for _, sv := range bs[f] {
+						lv.Map[sv] = pl.into
+					}
+				}
+			}
+		}
+		sort.Slice(newLabels, func(i, j int) bool { return newLabels[i] < newLabels[j] })
+		sort.Slice(mutIDs, func(i, j int) bool { return mutIDs[i] < mutIDs[j] })
+		for _, nl := range newLabels {
+			if v := x.noteAlloc(nl, "cleave"); v != nil {
+				return true, v, nil
+			}
+		}
+		x.MutIDs = append(x.MutIDs, mutIDs...)
+		w.Stats.Probe("label-parlabel")
 		return true, nil, nil
 	case "cleave":
 		bs := lv.BodySVs()
@@ -526,6 +686,29 @@ func (x *LabelExec) Apply(op drv.Op) (handled bool, v *drv.Violation, err error)
 		}
 		w.Stats.Probe("label-renumber")
 		return true, nil, nil
+	case "setmax":
+		// POST maxlabel/<n>: n must exceed this version's current max; often below the repo-wide max
+		st, b, e := w.HTTP("GET", x.base(op.V)+"/maxlabel", nil)
+		if e != nil {
+			return true, nil, e
+		}
+		var cur struct{ MaxLabel uint64 }
+		if st != 200 || json.Unmarshal(b, &cur) != nil {
+			return true, nil, nil
+		}
+		n := cur.MaxLabel + 1 + uint64(r.IntN(3))
+		st, body, e := x.post(fmt.Sprintf("%s/maxlabel/%d", x.base(op.V), n), nil)
+		if e != nil {
+			return true, nil, e
+		}
+		if st == 200 {
+			x.M.note(n)
+			w.Stats.Probe("label-setmax")
+		} else {
+			_ = body
+			w.Stats.Probe("label-setmax-refused")
+		}
+		return true, nil, nil
 	case "nextlabel":
 		n := 1 + int(op.N%3)
 		st, body, e := x.post(fmt.Sprintf("%s/nextlabel/%d", x.base(op.V), n), nil)
@@ -549,6 +732,20 @@ func (x *LabelExec) Apply(op drv.Op) (handled bool, v *drv.Violation, err error)
 		return true, nil, nil
 	}
 	return false, nil, nil
+}
+
+// counterSnapshot reads GET maxlabel of every version (nextlabel is repo-wide and covered by C12).
+func (x *LabelExec) counterSnapshot() (map[string]string, error) {
+	out := map[string]string{}
+	for _, v := range x.D.Sorted() {
+		u := x.base(v) + "/maxlabel"
+		st, b, err := x.W.HTTP("GET", u, nil)
+		if err != nil {
+			return nil, err
+		}
+		out[fmt.Sprintf("version %d GET maxlabel", v)] = fmt.Sprintf("%d %s", st, strings.TrimSpace(string(b)))
+	}
+	return out, nil
 }
 
 func jsonU64s(v []uint64) []byte {
@@ -656,6 +853,15 @@ func (x *LabelExec) CheckVersion(v int, deep bool) (*drv.Violation, error) {
 	add(drv.GET(base+"/blocks/"+full+"?compression=uncompressed"), "blocks (mapped)", func(r proto.Resp) string {
 		return cmpBlocks(r, mapped, lv.Written, g)
 	})
+	// mutation-log reader (streams the versions' binary log while a write handle may be open)
+	if len(bodies) > 0 {
+		add(drv.GET(fmt.Sprintf("%s/history/%d/%s/%s", base, bodies[0], x.uuid(0), x.uuid(v))), "history", func(r proto.Resp) string {
+			if r.Status >= 500 {
+				return fmt.Sprintf("status %d %s", r.Status, trunc(r.Body))
+			}
+			return ""
+		})
+	}
 	// label lists
 	add(drv.GET(base+"/listlabels"), "listlabels", func(r proto.Resp) string {
 		if r.Status != 200 {
